@@ -930,16 +930,20 @@ STORE_MC = {
     # name: (cfg file, quick overrides, thorough overrides)
     "init":   ("StoreMC.init.cfg", {"Horizon": 9000, "NewDeadlines": "{0, 3}", "CacheKinds": '{"none", "garbage", "partial", "complete", "stale"}'}, {}),
     "poll":   ("StoreMC.poll.cfg", {"CallerSet": '{"k1"}', "Acts": '{"newstore", "fail", "refresh", "svc", "handle", "read"}'}, {}),
-    "lookup": ("StoreMC.lookup.cfg", {"CallerSet": '{"k1", "k2"}'}, {"Steps": "{300000}", "Horizon": 600000}),
+    "lookup": ("StoreMC.lookup.cfg", {"CallerSet": '{"k1", "k2"}'}, {"CallerSet": '{"k1", "k2"}', "LookupDeadlines": "{0, 10000, 60000}"}),
     "reads":  ("StoreMC.reads.cfg", {"Acts": '{"newstore", "refresh", "svc", "handle", "read", "lookup", "close", "tick"}', "CacheKinds": '{"undeclared"}'}, {}),
     "race":   ("StoreMC.race.cfg", {}, {}),
+    # simulation only: racing lookups with a cache and a clock (access stamps across lookups, polls, expiry, restarts)
+    "racetime": ("StoreMC.race.cfg", {}, {}),
     "cache":  ("StoreMC.cache.cfg", {}, {"CacheKinds": '{"empty", "readerr", "garbage", "complete", "stale", "undeclared"}'}),
     "expiry": ("StoreMC.expiry.cfg", {"Expiries": "{30000}", "CacheKinds": '{"undeclared"}', "Horizon": 31000}, {}),
 }
 
 
 # simulation explores products that are beyond exhaustive reach (more callers)
-SIM_CONSTS = {"cache": {"Acts": '{"newstore", "fail", "refresh", "svc", "lookup", "cachefault", "restart", "close", "tick", "handle", "read"}',
+SIM_CONSTS = {"racetime": {"Steps": "{1000, 31000}", "Horizon": 93000, "Expiries": "{30000}", "CacheKinds": '{"empty", "undeclared"}',
+                           "Acts": '{"newstore", "lookup", "refresh", "svc", "read", "handle", "restart"}'},
+              "cache": {"Acts": '{"newstore", "fail", "refresh", "svc", "lookup", "cachefault", "restart", "close", "tick", "handle", "read"}',
                         "CacheKinds": '{"empty", "readerr", "garbage", "partial", "complete", "stale", "undeclared"}', "DeclaredSets": '{{"a"}, {"a", "x"}}'},
               "reads": {"CallerSet": '{"k1", "k2"}', "CacheKinds": '{"undeclared", "empty", "none"}'}, "lookup": {"CallerSet": '{"k1", "k2", "k3"}'}, "poll": {"CallerSet": '{"k1", "k2"}', "LookupDeadlines": "{0, 10000}",
                                                                                                             "Steps": "{1000, 10000}", "Horizon": 30000,
@@ -953,7 +957,7 @@ def store_mc(ctx, fam, invariants_note):
     return run
 
 
-def store_check(ctx, fams, profiles, n_quick, n_thorough, explanation, extra=None, race_profiles=()):
+def store_check(ctx, fams, profiles, n_quick, n_thorough, explanation, extra=None, race_profiles=(), script_only_fams=()):
     th = ctx.thorough
     runs = [store_mc(ctx, f, explanation[:80]) for f in fams]
     tot = {"accepted": 0, "events": 0, "histories": 0, "states": 0}
@@ -965,7 +969,7 @@ def store_check(ctx, fams, profiles, n_quick, n_thorough, explanation, extra=Non
         samples += (r.get("samples") or [])[:1]
     # direction A: behaviours simulated by TLC from the same configurations, forced on the real store
     forced = {"behaviours": 0, "accepted": 0, "steps_applied": 0, "steps_skipped": 0}
-    for f in fams:
+    for f in list(fams) + list(script_only_fams):
         st = store_scripts(ctx, f, int(os.environ.get("VERIF_SIM_N", 4000 if th else 600)), 45, consts=SIM_CONSTS.get(f))
         forced["behaviours"] += st["histories"]
         forced["accepted"] += st["accepted"]
@@ -1018,7 +1022,7 @@ def c11(ctx):
 
 @check("C16")
 def c16(ctx):
-    cov = store_check(ctx, ["lookup"], ["lookup", "lookupx"], 200, 3000,
+    cov = store_check(ctx, ["lookup", "race"], ["lookup", "lookupx"], 200, 3000,
                       "Store.tla models lookups: the gate (no request when lookups are disabled), one flight per name, per-caller contexts with the "
                       "five-minute fallback, retry after the leader's context ended, give-up at the caller's own deadline. TLC checks LookupGate, "
                       "Bounded and NotCollateral over callers x deadlines x cancellations x services that answer, fail or hang (explicit clock); "
@@ -1032,7 +1036,8 @@ def c19(ctx):
                       "Store.tla models expiry: a secret is marked expired in the poll snapshot iff undeclared, an age is set, not read for longer "
                       "than the age and no handle exists; it is dropped at the end of a successful poll unless a handle appeared meanwhile. TLC "
                       "checks DropRule / NeverDropDeclared / HandleNeverDangles over reads, handles, polls, clock steps and restarts from caches with "
-                      "any stamps (incl. 0); random histories of the real store with the virtual clock are validated, incl. persisted access stamps")
+                      "any stamps (incl. 0); random histories of the real store with the virtual clock are validated, incl. persisted access stamps",
+                      script_only_fams=("racetime",))
     return "model_checking", cov, ["the clock is the synctest bubble's; stamps are whole seconds as in the cache document"]
 
 
